@@ -89,7 +89,8 @@ def parseEv (t : String) : Option Ev :=
   match t.splitOn ":" with
   | [k, n, pub, skip, adm, gr, cf] => do
     let k ← match k with
-      | "f" => some EvKind.find | "d" => some .describe | "p" => some .addPub | "r" => some .addReader | _ => none
+      | "f" => some EvKind.find | "d" => some .describe | "p" => some .addPub | "r" => some .addReader
+      | "m" => some .media | _ => none
     let n ← Hex.decode n
     pure { kind := k, name := n, publish := pub == "1", skip := skip == "1", admitted := adm == "1",
            granted := gr == "1", conf := ← cf.toNat? }
